@@ -433,7 +433,7 @@ Section StrongInd.
     lookup r id = Some t -> t_def t = TDSequence e ->
     conf_sep P e n ts ("]" :: rest) -> P id ("vec" :: "!" :: "[" :: ts) rest.
   Hypothesis H_array_repeat : forall id t len e ts rest,
-    lookup r id = Some t -> t_def t = TDArray len e ->
+    lookup r id = Some t -> t_def t = TDArray len e -> repeat_ok r len e ->
     P e ts (";" :: lit_u "usize" len :: "]" :: rest) -> P id ("[" :: ts) rest.
   Hypothesis H_array_list : forall id t len e ts rest,
     lookup r id = Some t -> t_def t = TDArray len e ->
@@ -478,7 +478,7 @@ Section StrongInd.
                   |id t e ts rest L D hc
                   |id t st o rest L D
                   |id t e n ts rest L D hs
-                  |id t len e ts rest L D hc
+                  |id t len e ts rest L D Hrp hc
                   |id t len e ts rest L D hs
                   |id t l ts rest L D ht
                   |id t fs inner ts rest L D Hcow hc
@@ -491,7 +491,7 @@ Section StrongInd.
     - exact (H_compact id t e ts rest L D (conforms_sind _ _ _ hc)).
     - exact (H_bits id t st o rest L D).
     - exact (H_seq id t e n ts rest L D (conf_sep_map _ P conforms_sind _ _ _ _ hs)).
-    - exact (H_array_repeat id t len e ts rest L D (conforms_sind _ _ _ hc)).
+    - exact (H_array_repeat id t len e ts rest L D Hrp (conforms_sind _ _ _ hc)).
     - exact (H_array_list id t len e ts rest L D (conf_sep_map _ P conforms_sind _ _ _ _ hs)).
     - exact (H_tuple id t l ts rest L D (conf_tuple_map _ P conforms_sind _ _ _ ht)).
     - exact (H_cow id t fs inner ts rest L D Hcow (conforms_sind _ _ _ hc)).
@@ -1497,10 +1497,10 @@ Section Tie.
   Qed.
 
   Lemma case_array_repeat id t len0 e ts rest :
-    lookup r id = Some t -> t_def t = TDArray len0 e ->
+    lookup r id = Some t -> t_def t = TDArray len0 e -> repeat_ok r len0 e ->
     P e ts (";" :: lit_u "usize" len0 :: "]" :: rest) -> P id ("[" :: ts) rest.
   Proof.
-    intros L D Hc.
+    intros L D Hrp Hc. apply repeat_okb_complete in Hrp. unfold repeat_okb in Hrp.
     assert (Hcw : cw id = 0%nat).
     { apply (cw_plain id t L); [intros e0; rewrite D; discriminate|unfold is_cow_ty; rewrite D; reflexivity]. }
     destruct (proj1 Hc) as (pre & Hpre). pose proof (suffix_len _ _ _ Hpre) as L1. cbn [List.length] in L1.
@@ -1514,7 +1514,7 @@ Section Tie.
       destruct ts as [|t0 l]; [cbn [List.length] in L1; lia|].
       refine (eq_trans (match_rbracket (fun rest0 => if (len0 =? 0)%N then Some rest0 else None) _ t0 l
                           (hd_is_false_neq _ _ _ Hhd)) _).
-      rewrite K. cbn [obind]. cbv beta iota zeta. rewrite usize_ok. reflexivity.
+      rewrite K. cbn [obind]. cbv beta iota zeta. rewrite usize_ok, Hrp. reflexivity.
   Qed.
 
   Lemma case_array_list id t len0 e ts rest :
